@@ -27,21 +27,22 @@ import (
 )
 
 type mReq struct {
-	id        string
-	client    string
-	uri       string
-	challenge string // "" none
-	method    string
-	verifier  string
-	scopes    string
-	nonce     string
-	user      string
-	done      bool
-	codes     []string
-	consumed  bool
-	failed    bool // an exchange attempt on one of its codes failed before
-	cbBefore  bool
-	hidden    bool // the storage holds a code for this request that no response delivered while it was unfinished
+	id          string
+	client      string
+	uri         string
+	challenge   string // "" none
+	method      string
+	verifier    string
+	scopes      string
+	nonce       string
+	user        string
+	done        bool
+	codes       []string
+	consumed    bool
+	failed      bool // an exchange attempt on one of its codes failed before
+	cbBefore    bool
+	ctxConsumed bool // ... by an exchange whose context ended while it ran (and which was answered with tokens all the same)
+	hidden      bool // the storage holds a code for this request that no response delivered while it was unfinished
 }
 
 type opLog struct {
@@ -64,6 +65,9 @@ var keyHolders = []string{"jwt", "jwt2", "jwt3", "svc"}
 var kidOf = map[string]string{"jwt": "ckey-jwt", "jwt2": "ckey-jwt2", "jwt3": "ckey-jwt", "svc": "ckey-svc"}
 
 const maxGen = 3
+
+// case numbers of part B (ctxend.go) start here, far above the history count of any tier
+const ctxEndBase = int64(10_000_000)
 
 // genKey is generation g of client id's key, carrying the key ID it is registered under.
 func genKey(id string, g int) *keys.Key {
@@ -506,8 +510,35 @@ func runHistory(run *ev.Run, caseIdx int, router int) {
 				faulted = pick(r, "DeleteAuthRequest", "DeleteAuthRequest", "CreateAccessToken", "CreateAccessAndRefreshTokens", "SigningKey", "AuthRequestByCode", "GetClientByClientID", "AuthorizeClientIDSecret")
 				w.Store.Arm(&vstore.FaultPlan{Method: faulted, Kind: vstore.FaultKind(r.IntN(int(vstore.NumFaultKinds)))})
 			}
-			resp := w.ExchangeCode(router, code, uri, verifier, auth)
-			if faulted != "" {
+			var resp *opdrv.Resp
+			ctxEnded := ""
+			if faulted == "" && r.IntN(9) == 0 {
+				// one exchange in ten: the context of the request ends (cancelled / deadline) exactly when the k-th storage call
+				// of the exchange is entered, and the storage deals with that in one of three ways (ctxend.go; part B does the
+				// same at EVERY yield point of conforming exchanges). Judged like an exchange under a storage fault: the reasons
+				// to refuse stay what they are, and a code that yielded tokens is consumed.
+				kind, model, k, wrapped := pick(r, ctxEndKinds...), pick(r, ctxStoreModels...), 1+r.IntN(10), r.IntN(2) == 0
+				ctx, end, ctxErr := newEndingContext(kind)
+				at := ""
+				plan := storageModelPlan(model, k, ctxErr, wrapped)
+				plan.OnCall = func(n int, method string) {
+					if n == k {
+						at = method
+						end()
+					}
+				}
+				w.Store.Arm(plan)
+				resp = w.Do(router, exchangeRequest(w, code, uri, verifier, auth).WithContext(ctx))
+				w.Store.Arm(nil)
+				end()
+				if at != "" {
+					ctxEnded = model
+					faulted = fmt.Sprintf("context-%s-at-storage-call#%d:%s,storage-%s", kind, k, at, model)
+				}
+			} else {
+				resp = w.ExchangeCode(router, code, uri, verifier, auth)
+			}
+			if faulted != "" && ctxEnded == "" {
 				if w.Store.Fired() == 0 {
 					faulted = ""
 				}
@@ -533,6 +564,10 @@ func runHistory(run *ev.Run, caseIdx int, router int) {
 			}
 			if codeKind == "issued" && m.consumed {
 				refuse = append(refuse, "replay")
+				if m.ctxConsumed && !cross && credValid && uri == m.uri {
+					run.Observed("history:replay-after-context-ended-success:" + opdrv.RouterNames[router])
+					run.Count("scenario", "history:replay-after-context-ended-success:"+opdrv.RouterNames[router])
+				}
 			}
 			if codeKind == "issued" && !m.done {
 				refuse = append(refuse, "code-of-unfinished-request")
@@ -600,14 +635,25 @@ func runHistory(run *ev.Run, caseIdx int, router int) {
 			}
 			// no reason to refuse
 			if faulted != "" {
-				run.Count("outcome", "under_storage_fault:"+faulted+":"+map[bool]string{true: "tokens", false: "refused"}[success])
+				if ctxEnded != "" {
+					run.Count("outcome", "context_ended_during_exchange:storage-"+ctxEnded+":"+map[bool]string{true: "tokens", false: "refused"}[success])
+					run.Observed("history:context-ended-exchange:" + map[bool]string{true: "tokens", false: "refused"}[success] + ":" + rn)
+				} else {
+					run.Count("outcome", "under_storage_fault:"+faulted+":"+map[bool]string{true: "tokens", false: "refused"}[success])
+				}
 				if !success {
 					m.failed = true
 					continue
 				}
-				// tokens were issued although a storage call failed (C10 judges that); for C04 the code is now consumed
+				// tokens were issued although a storage call failed / the context had ended (C10 judges the answer); for C04
+				// the code is now consumed
 				run.Observed("fault-during-exchange")
 				m.consumed = true
+				m.ctxConsumed = ctxEnded != ""
+				if key, what := bindingViolation(w, toks, m); key != "" {
+					violated(key, what)
+					return
+				}
 				continue
 			}
 			if !success {
@@ -649,22 +695,8 @@ func runHistory(run *ev.Run, caseIdx int, router int) {
 			}
 			m.consumed = true
 			// the issued tokens carry subject, client, scopes and nonce of the request
-			idc, err := w.VerifyWithOPKey(toks.ID)
-			if err != nil {
-				violated("id-token-unverifiable", "id_token of the code exchange does not verify under the provider key: "+err.Error())
-				return
-			}
-			if idc["sub"] != m.user || idc["azp"] != m.client || !opdrv.AudContains(idc["aud"], m.client) || idc["nonce"] != m.nonce {
-				violated("id-token-binding", fmt.Sprintf("id_token claims sub=%v azp=%v aud=%v nonce=%v differ from request (user=%s client=%s nonce=%s)", idc["sub"], idc["azp"], idc["aud"], idc["nonce"], m.user, m.client, m.nonce))
-				return
-			}
-			rec, ok := w.Store.TokenRecord(w.TokenID(toks.Access))
-			if !ok {
-				violated("access-token-unknown", "returned access token does not resolve to a stored token")
-				return
-			}
-			if rec.Subject != m.user || rec.ClientID != m.client || strings.Join(rec.Scopes, " ") != m.scopes || toks.Scope != m.scopes {
-				violated("access-token-binding", fmt.Sprintf("access token sub=%s client=%s scopes=%v resp.scope=%q differ from request (user=%s client=%s scopes=%s)", rec.Subject, rec.ClientID, rec.Scopes, toks.Scope, m.user, m.client, m.scopes))
+			if key, what := bindingViolation(w, toks, m); key != "" {
+				violated(key, what)
 				return
 			}
 		}
@@ -686,15 +718,28 @@ func main() {
 		run.Mandatory("forged-assertion-alone:"+rn, "forged-assertion-after-forger-spoke:"+rn, "stale-key-alone:"+rn, "stale-secret-alone:"+rn,
 			"success-with-rotated-key:"+rn, "success-with-rotated-secret:"+rn, "success-shared-kid-after-other:"+rn)
 	}
+	run.Mandatory(ctxEndMandatory()...)
+	for _, rn := range opdrv.RouterNames {
+		run.Mandatory("history:context-ended-exchange:tokens:"+rn, "history:context-ended-exchange:refused:"+rn, "history:replay-after-context-ended-success:"+rn)
+	}
 	n := run.N(6000, 60000)
+	if rc := run.ReplayCase(); rc >= ctxEndBase {
+		runCtxEnd(run, ctxEndBase, rc-ctxEndBase)
+		run.Finish()
+	}
 	if rc := run.ReplayCase(); rc >= 0 {
 		runHistory(run, int(rc), 0)
 		runHistory(run, int(rc), 1)
 		run.Finish()
 	}
+	t0 := time.Now()
 	ev.Parallel(n, 0, func(_ int, i int) {
 		runHistory(run, i, 0)
 		runHistory(run, i, 1)
 	})
+	t1 := time.Now()
+	runCtxEnd(run, ctxEndBase, -1)
+	run.Extra("wall_s_histories", t1.Sub(t0).Seconds())
+	run.Extra("wall_s_context_end", time.Since(t1).Seconds())
 	run.Finish()
 }
